@@ -314,6 +314,10 @@ def run(tier, seed, replay=None):
         o2 = [{"events": o["events"], "roots": [], "mode": "files", "fl": {},
                "tag": key_of(s), "argv": []} for s, o in zip(sel, obs)]
         t_ok, t_rej, tstates = ptrace.validate(o2, base)
+        suite_cov = {}
+        if tier == "thorough":
+            from . import suite
+            suite_cov = suite.check(v, "C13", base)
         for rj in t_rej:
             if rj["invariant"] in ptrace.INVS["C13"]:
                 v.violation(f"trace:{rj['invariant']}:{rj['key']}",
@@ -332,6 +336,7 @@ def run(tier, seed, replay=None):
                    "directory, skip_children, ignore, @generated); all scenarios distinct by construction",
            "universe": len(uni), "model_walk_differs_from_rule": n_model_diff,
            "trace_states": tstates, "exhaustive": tier == "thorough"}
+    cov.update(suite_cov)
     return v.finish("model_checking", cov, [
         "every file carries an unformatted fn, so 'formatted' is observed as 'bytes changed'",
         "scenario enumeration is done by the Python generator (fixed universe); Reach and Walk "
